@@ -240,7 +240,7 @@ def build_node(rt, nd, prefix):
         f = _mk_callable(rt, path, nd, "handler")
         data = nd["outputs"][: nd["ndata"]]
         out = data[0] if len(data) == 1 else tuple(data)
-        node = InterruptNode(f, name=nd["name"], output_name=out, emit=emit, wait_for=wait_for)
+        node = InterruptNode(f, name=nd["name"], output_name=out, emit=emit, wait_for=wait_for, cache=nd["cache"])
         return _rename_inputs(node, nd)
     if kind == "route":
         f = _mk_callable(rt, path, nd, "gate")
